@@ -354,7 +354,7 @@ def main():
             'extraction_drops': 'docstrings, type annotations, text of f-strings / log / warning / exception '
                                 'messages, __str__/__repr__, __main__ blocks',
         },
-        'assumptions': ASSUMPTIONS,
+        'assumptions': ASSUMPTIONS + PROP_ASSUMPTIONS.get(prop, []),
         'wall_s': round(wall, 2),
         'violations': len(replays),
     }
@@ -383,6 +383,31 @@ ASSUMPTIONS = [
     'dataset lengths and contents do not change while a method runs (no external mutation of the examples container)',
     'lists are referenced through one local name (aliasing of mutable lists is outside the subset: Unsupported)',
 ]
+
+_NUMPY = 'assumed contract of numpy indexing: np.arange(n)[spec,] normalises slices / integer lists / arrays into positions within [0,n), raises IndexError otherwise, advanced indexing returns a new array, iteration reads the live buffer'
+_EXEC = 'assumed executor contract: submit/apply_async/apipe(f,x) -> handle; result/get(handle) is the outcome of f(x) whenever it ran; cancel prevents a not-yet-started task; leaving the with-block waits for started tasks / terminates the pool'
+_QUEUE = 'assumed: queue.Queue is a linearisable bounded FIFO; Thread.join returns iff the target finished; one shared access per atomic step (GIL); weak fairness; one next() of the source terminates'
+_RNG = 'assumed numpy RNG contract: rng.shuffle permutes in place by a bijection determined by the generator state; choice(n, size, replace=False) returns distinct indices; equal states give equal draws'
+_PICKLE = 'assumed: pickle.loads(pickle.dumps(x)) / deepcopy(x) is value-equal and deep-fresh; dumps returns immutable bytes'
+PROP_ASSUMPTIONS = {
+    'C01': [_NUMPY, 'operator.itemgetter / zip / map / enumerate: textbook semantics (zip stated for equal lengths: an obligation at the call site)', 'IntersperseDataset.__init__ establishes ORDER: bounded stand-in only', 'KeyZipDataset.__init__ invariant (equal key sets) assumed, not proved'],
+    'C02': [_NUMPY, 'BatchDataset batch_size >= 1 (precondition of the stage, not checked by the constructor)'],
+    'C03': [_NUMPY, 'all positions carrying one key denote the same example (I-key)'],
+    'C04': [_EXEC, _QUEUE, 'dill.loads(dill.dumps(x)) == x'],
+    'C05': [_EXEC, _QUEUE], 'C06': [_EXEC, _QUEUE, 'A-FRESH for the private sentinel'], 'C07': [_EXEC, _QUEUE],
+    'C08': ['builtin map and zip are lazy (one application / pull per element, when the element is pulled)'],
+    'C09': [_PICKLE, 'NumpySerializedList (wu mode): only the bounded stand-in'],
+    'C10': [_PICKLE, 'psutil.virtual_memory() returns arbitrary values at every call', 'accesses to one position are not concurrent'],
+    'C11': ['assumed: diskcache.Cache is a durable atomic key -> value map (a store interrupted by a kill is absent or complete); CPython runs __del__ when the last reference is dropped; pathlib/shutil semantics'],
+    'C12': [_RNG, _NUMPY], 'C13': [_RNG, _NUMPY],
+    'C14': ['`except <spec>` matching is an uninterpreted relation CATCH(spec, exception) (covers single type, tuple, subclass)'],
+    'C15': ['assumed: np.array_split(np.arange(n), k) yields k consecutive ranges, the first n mod k one longer (conformance: bounded-split)'],
+    'C16': ['induction schema for the inductive laws (base and step are discharged)'],
+    'C17': ['len_key is total, deterministic and positive; 0 <= max_padding_rate < 1; batch_size >= 1'],
+    'C18': ['assumed: sort_fn (default sorted) returns a permutation of its argument ordered by the elements, reverse reverses the order'],
+    'C19': ['dictionary contents are opaque; key presence is an arbitrary boolean per dictionary and key; WeakValueDictionary / json / pickle of JsonDatabase not modelled'],
+    'C20': ['time.perf_counter returns arbitrary reals'],
+}
 
 if __name__ == '__main__':
     main()
